@@ -204,7 +204,8 @@ def mutate_malformed(rnd, d, kind):
         t = rnd.choice(d["provs"][b]["provides"])[0] if rnd.random() < 0.7 else rnd.choice(rnd.choice(d["provs"][b]["provides"]))
         d["provs"][a]["requires"] = d["provs"][a]["requires"] + [t]
         d["kind"] = "cycle"
-        d["expect"] = dict(err="cycle", types=[t])
+        # the diagnostic identifies every provider on the cycle by its first provided type: any type of b's first group counts
+        d["expect"] = dict(err="cycle", types=[], types_any=sorted({x for g in d["provs"][b]["provides"] for x in g} | {t}))
         return d
     if kind == "dup":
         # a second provider supplying a type already supplied (function result, bound interface, or struct field)
